@@ -56,17 +56,34 @@ func reqPathFrom(v ssa.Value, isD func(ssa.Value) bool) string {
 // singleStoreTo returns the value of the only Store to alloc a.
 func singleStoreTo(a *ssa.Alloc) ssa.Value {
 	var v ssa.Value
+	var st ssa.Instruction
 	n := 0
 	for _, r := range *a.Referrers() {
-		if st, ok := r.(*ssa.Store); ok && st.Addr == ssa.Value(a) {
-			v = st.Val
+		if s2, ok := r.(*ssa.Store); ok && s2.Addr == ssa.Value(a) {
+			v = s2.Val
+			st = s2
 			n++
 		}
 	}
-	if n == 1 {
-		return v
+	if n != 1 {
+		return nil
 	}
-	return nil
+	// every use of the cell is preceded by the store on every path from its allocation (no stale value of an earlier
+	// loop iteration, no zero value)
+	for _, r := range *a.Referrers() {
+		if r == st {
+			continue
+		}
+		if _, isDbg := r.(*ssa.DebugRef); isDbg {
+			continue
+		}
+		use := r
+		if x, _ := an.Cut(an.CutQuery{From: an.After(a), Target: func(i ssa.Instruction) bool { return i == use },
+			AcceptInstr: func(i ssa.Instruction) bool { return i == st }}); x != nil {
+			return nil
+		}
+	}
+	return v
 }
 
 // arraySliceSource: v = slice A[:] where A is a local array cell with a single store; returns that stored value.
